@@ -265,7 +265,7 @@ func superProfile() chain.Profile {
 	p.Nodes = []string{"a01", "a02", "a03"}
 	p.Gateways = []string{"a01", "a02", "a03"}
 	p.Weights = map[string]int{"Blocks": 14, "Delegate": 26, "Undelegate": 16, "Redelegate": 8, "ResetSuper": 10, "AddVstorage": 8, "RemoveVstorage": 8,
-		"StoreNew": 6, "Complete": 8, "Claim": 2, "SuperCycle": 14, "StaleHook": 6, "CreateLate": 3}
+		"StoreNew": 6, "Complete": 8, "Claim": 2, "SuperCycle": 14, "StaleHook": 6, "CreateLate": 6}
 	p.LateNodes = []string{"a06"} // joins later and never pledges any capacity: no pledge record at all
 	p.Caps = []int64{1000000, 2000000, 3000000}
 	p.Sizes = []int64{1000}
@@ -296,7 +296,7 @@ func valsetProfile() chain.Profile {
 	p.Name = "valset"
 	p.Vals = []string{"v1", "v2", "v3"}
 	p.Weights = map[string]int{"Blocks": 16, "Delegate": 18, "Undelegate": 14, "Redelegate": 8, "ResetSuper": 8, "AddVstorage": 6, "RemoveVstorage": 4,
-		"StoreNew": 4, "Complete": 6, "SuperCycle": 10, "ValRotate": 16, "StaleHook": 6, "CreateLate": 3}
+		"StoreNew": 4, "Complete": 6, "SuperCycle": 10, "ValRotate": 16, "StaleHook": 6, "CreateLate": 6}
 	return p
 }
 
